@@ -11,11 +11,16 @@ def run(o, ctx, tier, seed, replay=None):
     sizes = [1024, 8191, 8192, 8193, 100_000, 1 << 20, 10_000_000, 64 << 20]
     if t != "quick":
         sizes += [256 << 20, 1 << 30]
-    lines = ["MEM dir=%s framing=%s n=%d" % (d, f, n) for d in ("req", "resp") for f in ("cl", "chunked", "auto") for n in sizes if not (d == "req" and f == "auto")]
+    lines = ["MEM dir=%s framing=%s n=%d" % (d, f, n) for d in ("req", "reqdrain", "resp") for f in ("cl", "chunked", "auto") for n in sizes if not (d != "resp" and f == "auto")]
     if replay is not None:
         lines = [replay["case"]]
     impl = C.run_sharded(ctx["kimpl"], lines, shards=4)
-    mlines = ["MEMMODEL dir=%s framing=%s n=%s piece=8192" % tuple(x.split("=")[1] for x in l.split()[1:4]) for l in lines]
+    def mline(l):
+        d_, f_, n_ = (x.split("=")[1] for x in l.split()[1:4])
+        # the harness handler streams through a STACK buffer and the thread's request buffer exists before the measurement starts:
+        # compare with the model's BufReader + line buffers only (count=transfer)
+        return "MEMMODEL dir=%s framing=%s n=%s piece=8192%s" % ("req" if d_.startswith("req") else d_, f_, n_, " count=transfer" if d_.startswith("req") else "")
+    mlines = [mline(l) for l in lines]
     model = C.run_sharded(ctx["kmodel"], mlines) if ctx.get("have_model") else ["NOMODEL"] * len(lines)
     peaks = {}
     for c, a, m in zip(lines, impl, model):
@@ -50,8 +55,12 @@ def run(o, ctx, tier, seed, replay=None):
     o.extra["peaks"] = {"%s/%s/%d" % k: v for k, v in sorted(peaks.items())}
 
 
-register("C20", unclaimed="memory model (Lean) being built", lean=[], run=run, search=False,
+register("C20", lean=["Khttp.Props.C20"], run=run, search=False, technique="machine-checked proof (Lean 4) over a buffer-level state-machine model + measured peak heap of the real transfers (partial: allocator/std behaviour measured, not proved)",
          rule="MEM cases: real transfers through Server::handle on a loopback socket pair with a counting global allocator: directions {request body streamed by a handler through an 8 KiB buffer, response body from a reader} x "
               "framing {declared length, chunked, auto} x body lengths {1 KiB, 8191..8193, 100 kB, 1 MiB, 10 MB, 64 MiB (+256 MiB, 1 GiB thorough)}, bodies generated and discarded on the fly. distinct_nontrivial = all cases.",
          assumptions=["allocator behaviour, Vec growth policy and std internals are measured, not proved (partial)", "well-formed messages; a chunk-size / trailer line of unbounded length is outside the quantifier"],
-         explanation="(under construction)")
+         explanation="PARTIAL. Theorems (Props/C20) over explicit state machines of the streaming paths whose state holds every buffer with its capacity (probe Vec, head Vec, BufWriter, chunk-size line, BufReader, "
+                     "REQUEST_BUFFER, size/trailer line String, caller buffer; Vec growth = any capacity in [needed, max(8, 2*needed)]): in every state reached, for every body length, piece schedule and framing, heapBytes <= Ksend / Krecv, "
+                     "closed expressions in the thresholds and the head length that do not mention the body length; only REQUEST_BUFFER depends on the request (exactly max_request_head); byte accounting (read = emitted + buffered + dropped); "
+                     "parametric in all thresholds. Oracle + tie: counting global allocator around real transfers from 1 KiB to 64 MiB (1 GiB thorough) in every direction/framing incl. an unread body discarded by the drop-drain; "
+                     "measured peak <= model bound + 64 KiB slack and <= 512 KiB absolute, flat in the body length.")
